@@ -103,7 +103,7 @@ fn main() {
         }
         let census = conv::impl_census();
         c.finish(
-            "exploration",
+            "model_checking",
             "finite products, every member executed against the real binding crate (dnp3-ffi built as an rlib from /repo): \
              (1) enum-conversions: every variant of every generated ffi enumeration (variants discovered by scanning the generated From<c_int> over 0..=4096) through every hand-written From impl that takes it, and every native value (enumerated through the library's own from-octet constructors where they exist, otherwise listed) through every From impl that produces an ffi enumeration; oracle = like-named result (normalised Debug names) or the stated documented collapse; \
              (2) value-conversions: every struct From impl over boundary menus of every field (all 256 flag / IIN / control-code octets, three time qualities x boundary instants, numeric limits, NaN, infinities); oracle = field-wise equality with a natively constructed value; \
